@@ -382,7 +382,8 @@ META = {
             "configuration) are the same canonical network, i.e. the direct and iterative solvers see one operator, for all inputs and not "
             "only real-symmetric ones; for the tree optimiser, that the sweep (abstractly run on symbolic trees) reads only fresh environments, solves at the "
             "gauge centre, optimises every bond and that hop_expr2 is the canonical two-site network. The variational bound and convergence themselves are numerical and are not decided."
-            ' optimize_mps is run abstractly over the gauge flags of its input: the state is orthonormalised before environments are built and the environment side matches the gauge.',
+            ' optimize_mps is run abstractly over the gauge flags of its input: the state is orthonormalised before environments are built and the environment side matches the gauge.'
+            ' The blocked diagonalisation of the state-averaged density matrix (eigh_qn) is interpreted as a whole on exact data with charges of both signs: every sector that has a partner on the other side is diagonalised and carries its own label.',
     "note": "Roles are bound by the kernels' parameter positions; letters and variable names are irrelevant. A kernel configuration the "
             "interpreter cannot follow stops the analysis (exit 2).",
     "design_ref": "DESIGN.md 3.2, 4 (C08); as built: 9.1, 9.3, 9.8",
